@@ -182,6 +182,34 @@ def r9(cx):
             rechecks = {c.bb for c in cb.calls if c.bb in cb.live and (c.names & work or c.primary.endswith("Notify::notify_one") and "notify" in origin_of_operand(cb, c.args[0]).upvar_names)}
             r = cb.reachable_after([st.bb], avoid=rechecks)
             bad = [w for w in waits if w.bb in r]
+            if bad:
+                # a pass that FAILED may go back to waiting without the re-check (see below); decide the question for the
+                # passes that did not fail: walk one iteration from where the flag is set, never entering an error arm,
+                # with the constant facts established on the way (`failed = false`)
+                sets = [c for c in cb.calls if c.bb in cb.live and c.primary.endswith("::store") and "running" in origin_of_operand(cb, c.args[0]).upvar_names
+                        and len(c.args) > 1 and const_value(c.args[1]) == 1]
+                errs = set()
+                for w_ in cb.calls_to("CompactionOperations::compact_memtable"):
+                    re_ = result_edges(cb, w_)
+                    if re_:
+                        errs |= set(re_[1])
+                if sets and errs:
+                    r2 = feasible_reach(cb, list(cb.succ[sets[0].bb]), avoid=rechecks | errs)
+                    bad = [w for w in waits if w.bb in r2 and st.bb in r2]
+            # ... but not after a FAILED pass: the memtable whose flush failed is still queued, so an unconditional self
+            # re-arm retries the failing flush in a tight loop until close()
+            wk = cb.calls_to("CompactionOperations::compact_memtable")
+            for w_ in wk:
+                re_ = result_edges(cb, w_)
+                if not re_:
+                    continue
+                okb, errb = re_
+                selfn = [c for c in cb.calls if c.bb in cb.live and c.primary.endswith("Notify::notify_one") and "notify" in origin_of_operand(cb, c.args[0]).upvar_names]
+                r_err = feasible_reach(cb, errb, avoid={w.bb for w in waits})
+                spin = [c for c in selfn if c.bb in r_err]
+                cx.check(not spin, "task %s does not re-arm itself on the path of a failed flush" % cb.id, "failed-flush-retried-at-once|%s" % flag, w_.where(),
+                         "after `compact_memtable` returned an error the flush task still notifies itself when something is queued -- and the memtable that failed IS still queued: "
+                         "the failing flush is retried in a tight loop (CPU, log flood) until close()")
             cx.check(not bad, "task %s re-checks for queued work after clearing `%s` and before waiting again" % (cb.id, flag), "lost-wakeup|%s" % flag, st.where(),
                      "the flush task clears `%s` after its last look at the immutable queue and goes back to waiting; wake_up_memtable() is silent while the flag is set, so a "
                      "rotation in between leaves its memtable queued with no wake-up pending -- with two of them the write stall never ends and commit() hangs" % flag)
